@@ -353,13 +353,14 @@ func runC02R2(c *eng.Ctx, r *eng.RuleCtx) {
 			}
 			return true
 		})
+		sameObj := copyAliases(info, f.Decl.Body)
 		isStore := func(n *eng.GNode) bool {
 			as, ok := n.Node.(*ast.AssignStmt)
 			if !ok || len(as.Lhs) != 1 {
 				return false
 			}
 			ix, isIx := ast.Unparen(as.Lhs[0]).(*ast.IndexExpr)
-			return isIx && eng.IsField(info, ix.X, cached) && keyVar != nil && eng.SelObj(info, ix.Index) == keyVar && resVar != nil && eng.SelObj(info, as.Rhs[0]) == resVar
+			return isIx && eng.IsField(info, ix.X, cached) && keyVar != nil && eng.SelObj(info, ix.Index) == keyVar && resVar != nil && sameObj(eng.SelObj(info, as.Rhs[0]), resVar)
 		}
 		isDelete := func(*eng.GNode) bool { return false }
 		if keyVar != nil {
